@@ -39,3 +39,25 @@ Definition s_erase_range (s : tstring) (a b : nat) : tstring := firstn a s ++ sk
 Definition s_set (s : tstring) (i : nat) (e : element) : tstring := list_set s i e.
 Definition s_size (s : tstring) : nat := length s.
 Definition s_empty (s : tstring) : bool := match s with [] => true | _ => false end.
+
+(* ---- glyph constructors ------------------------------------------------------------- *)
+(* the constructor from a character and a character set *)
+Definition glyph_of_char (b : byte) (c : charset) : glyph := mkGlyph c b 0 0.
+
+(* the constructors from an array holding one UTF-8 character and its NUL *)
+Definition glyph_of_array (bs : list byte) : glyph :=
+  mkGlyph CsUtf8 (nth 0 bs 0) (nth 1 bs 0) (nth 2 bs 0).
+
+(* the constructor from a pointer into UTF-8 text (which may go on after the
+   first character; reading stops at the text's NUL at the latest): only the
+   bytes of the first character are taken - the lead byte says how many
+   continuation bytes belong to it (after the fix of defect D10) *)
+Definition is_cont (b : byte) : bool := (128 <=? b) && (b <? 192).
+Definition glyph_of_cstr (text : list byte) : glyph :=
+  let t0 := nth 0 text 0 in
+  let t1 := nth 1 text 0 in
+  let t2 := nth 2 text 0 in
+  let len := if t0 <? 128 then 1 else if (192 <=? t0) && (t0 <? 224) then 2 else 3 in
+  let u1 := if (2 <=? len) && is_cont t1 then t1 else 0 in
+  let u2 := if (3 <=? len) && is_cont t1 && is_cont t2 then t2 else 0 in
+  mkGlyph CsUtf8 t0 u1 u2.
